@@ -353,11 +353,65 @@ func buildC04(tier string) *core.Plan {
 		}}
 
 	return &core.Plan{
-		Spaces: []core.Space{differential, templates, selfCheck},
+		Spaces: []core.Space{differential, templates, selfCheck, c04Repeated()},
 		Rule: "logical layer sets (1-3 layers, 1-2 documents) built around every comparison bkl makes (useless override, list $match/$delete/$value, document $match, $repeat counts, $encode of numbers) over 14 boundary numbers and 8 look-alike strings, " +
 			"each written under ALL 6^n assignments of {json, yaml-block, yaml-flow, toml-inline, toml-tables, toml-dotted} to the layers; YAML anchor/merge-key and TOML dotted-key/table templates against their expanded JSON",
 		Assumptions: []string{"differential oracle: status, type-exact Documents() and output bytes in json/yaml/toml of every assignment equal those of the all-JSON assignment",
 			"the harness emitters are trusted and cross-checked on every run against Python json, PyYAML with a YAML 1.2 core-schema resolver, and tomllib"},
 		Bounds: map[string]any{"numbers": c04Numbers, "strings": c04Strings, "sets": len(sets), "spellings": emit.Spellings},
 	}
+}
+
+// c04Repeated: the same layer read again and again in one process. What a format-specific reader
+// accepts must not depend on how much it has read before (budgets, caches, counters that belong to
+// one stream but live in the process): the 3 000th reading gives what the first gave, in every format.
+func c04Repeated() core.Space {
+	texts := []struct{ ext, text string }{
+		{"yaml", "base: &b {k: 1, j: [1, 2]}\nl: [*b, *b, *b]\nm:\n  <<: *b\n  z: 1\nn: {<<: [*b], y: 2}\n"},
+		{"yaml", "a: 1\n---\nb: [x, y]\n---\nc: {d: e}\n"},
+		{"toml", "top = 1\n[a]\nx = 2\n[[l]]\nk = 1\n[[l]]\nk = 2\n"},
+		{"json", "{\"a\": [1, 2, {\"b\": 9007199254740993}]}\n"},
+		{"jsonl", "{\"a\": 1}\n{\"b\": 2}\n"},
+	}
+	const rounds = 3000
+	return core.Space{Name: "same-layer-read-3000-times-in-one-process", N: int64(len(texts)), Chunk: 1,
+		Desc: func(i int64) any { return texts[i] },
+		Run: func(c *core.Ctx, i int64) {
+			t := texts[i]
+			dir := scratchDir()
+			defer os.RemoveAll(dir)
+			path := filepath.Join(dir, "t."+t.ext)
+			os.WriteFile(path, []byte(t.text), 0o644)
+			first := ""
+			for r := 0; r < rounds; r++ {
+				c.Eval()
+				obs := ""
+				p := newParser()
+				if err := p.MergeFileLayers(path); err != nil {
+					obs = "ERR " + errClass(err)
+				} else if b, err := p.Output("json"); err != nil {
+					obs = "ERR output"
+				} else {
+					obs = string(b)
+				}
+				if r == 0 {
+					first = obs
+					continue
+				}
+				if obs != first {
+					c.Validated()
+					c.Outcome("DEPENDS-ON-PROCESS-HISTORY")
+					c.Fail("format-independence", "reading-depends-on-earlier-readings-in-the-process", fmt.Sprintf("%s layer, reading %d", t.ext, r+1), map[string]any{"text": t.text, "first": first, "this": obs})
+					return
+				}
+			}
+			c.Trans(rounds)
+			c.Validated()
+			c.Nontrivial()
+			if strings.HasPrefix(first, "ERR") {
+				c.Fail("format-independence", "load-error", t.ext+": "+t.text, first)
+				return
+			}
+			c.Outcome("stable-over-3000-readings")
+		}}
 }
